@@ -692,7 +692,7 @@ theorem BookInv.step (s s' : Sys) (m : Msg) (rest0 subs : List Msg)
       have ch := handle_wasm_chain s s' a b cl d subs hx
       have sent := (handle_sentBy s s' _ subs hx).1 a b cl d rfl
       cases handle_touch s s' _ subs hx with
-      | none h _ hs => exact same h.hub ch.1 ch.2 (sentBy_noStake swapA (by decide) subs hs)
+      | none h _ hs _ => exact same h.hub ch.1 ch.2 (sentBy_noStake swapA (by decide) subs hs)
       | hub s1 sender funds hm heq h1 hc hx' bb t r dd g =>
         have c1 : ChainOK s1 := ⟨fun w hw => by rw [hc.1]; exact c.outside w hw,
           fun w hw => by rw [hc.1]; rw [hc.2.1] at hw; exact c.unset w hw⟩
@@ -802,7 +802,7 @@ theorem C02_direct_call_recognises (s s' : Sys) (sender : Addr) (funds : List (D
   · rename_i s1' subs h1
     have ch := handle_wasm_chain s s1' _ _ _ _ subs h1
     cases handle_touch s s1' _ subs h1 with
-    | none h hm' _ =>
+    | none h hm' _ _ =>
       rcases hm' with hm' | ⟨a, b, c', d, heq, ht⟩
       · exact absurd rfl (hm' _ _ _ _)
       · injection heq with _ e2 _ _
